@@ -316,8 +316,7 @@ Definition valid_prog (p : prog) : bool :=
     && Nat.leb (List.length rest) 5
     && match the_failure p with None => false | Some _ => true end
     && negb (Nat.eqb (p_fail p) 9 && has_kind p (fun k => match k with KFiber => true | _ => false end) 0 n)
-    && negb ((uses_native (p_fail p) || (Nat.eqb (p_fail p) 22 && uses_native (p_arg p))
-              || Nat.eqb (p_fail p) 23 || Nat.eqb (p_fail p) 24)   (* natives and error classes live in "main" only *)
+    && negb ((uses_native (p_fail p) || (Nat.eqb (p_fail p) 22 && uses_native (p_arg p)))   (* the natives live in "main" only *)
              && has_kind p (fun k => match k with KScript => true | _ => false end) 1 n)
     && negb (Nat.eqb (p_fail p) 22 && (Nat.eqb (p_arg p) 9)
              && has_kind p (fun k => match k with KFiber => true | _ => false end) 0 n)
